@@ -35,7 +35,12 @@ SUSPICIOUS = [
     ['extended', '\\mcombo*[o]{a}{b} \\mv|x{|'],
     ['default', '\\frac{a}{ {b} \\sqrt[3]{c}'],
 ]
-POOL = SUSPICIOUS + [
+SUSPICIOUS_MORE = [
+    ['every', '\\me^{a}_{b}'],
+    ['every', '\\me_{b}x\\me^c'],
+    ['every', '\\many(a(b)c)\\manyo<x>{y}\\manyo{z}'],
+]
+POOL = SUSPICIOUS + SUSPICIOUS_MORE + [
     ['every', '\\mt+\\mt \\md<a>\\md x'],
     ['every', '\\mstar*\\ms \\mo[a[b]c]'],
     ['every', '\\begin{eenv}[o]{m}body\\end{eenv}\\begin{emath}x\\end{emath}'],
@@ -227,6 +232,12 @@ def run_shard(shard, res):
                         h = h + [h[0]]
                         record(h, run_history_forked(h, table), res)
                     i += 1
+        if k == 0:
+            for doc in SUSPICIOUS_MORE:
+                for other in SUSPICIOUS_MORE:
+                    for tol in (False, True):
+                        h = [(doc[0], doc[1], tol), (other[0], other[1], tol), (doc[0], doc[1], tol)]
+                        record(h, run_history_forked(h, table), res)
         res.exhaustive = True
     else:
         _, n, maxlen, seed = shard
